@@ -9,7 +9,8 @@ open Cel Cel.Drv Cel.Cli
   line tokens     M (malformed JSON) | X:<Exc> (the JSON decoder raises something else) | an outcome token (a document
                   on which the expression has that outcome)
   mode n: one outcome token; mode s: one line token; mode j: any number of line tokens
-  answer: `<status | raise Exc> | <stdout lines>` -/
+  answer: `<status | raise Exc> | <stdout lines>`
+  line: `split <code point>*` — answer: the lengths of the documents the NDJSON loop cuts the text into -/
 
 def excOf (s : String) : Exc :=
   match s with
@@ -65,6 +66,10 @@ def handle : Handler
             else if m == "j" then
               showRes (main ⟨argsOk, compiles, .ndjson, bo, "jq", act, progOf "jq" tab, .malformed, ls⟩)
             else "bad-op"
+  | "split" :: cps =>
+      -- the input text as decimal code points; answer: the length of every line of `for document in sys.stdin`
+      let cs := cps.filterMap (fun t => t.toNat?.map Char.ofNat)
+      " ".intercalate ((splitLines cs).map (fun l => toString l.length))
   | ["var", p, d] =>
       let opt (s : String) : Option String := if s == "-" then none else some s
       varName (opt p) (opt d)
